@@ -10,8 +10,9 @@
     one step; os.Remove and Unlock act on the NAME.  Any number of contender threads in
     any number of processes; [LKill p] is SIGKILL of process p (its threads and heartbeat
     goroutines vanish, files stay).  Time is in ns; [LTick] lets time pass but not beyond
-    [delta] after a live heartbeat's wake-up time (the timing hypothesis H-live: a live
-    process runs each heartbeat within [delta] of its due time).
+    [delta] after a live heartbeat's wake-up time, nor beyond [eps] after its truncate
+    (the timing hypothesis H-live: a live process runs each heartbeat within [delta] of its
+    due time and writes within [eps] of truncating).
 
     The model is parameterised by a configuration read from the source by the translator
     (Gen.Consts): the constants, whether emptyCount is ever reset, and whether a
@@ -28,7 +29,8 @@ Record config := Config {
   esleep : Z;        (* sleep between empty reads *)
   resets : bool;     (* emptyCount reset by a successful decode? *)
   checks : bool;     (* heartbeat compares Created? *)
-  delta : Z          (* H-live: heartbeat latency bound *)
+  delta : Z;         (* H-live: heartbeat latency bound *)
+  eps : Z            (* H-live: longest truncate -> write gap of a heartbeat (0 on a healthy disk) *)
 }.
 
 Definition tid := nat.
@@ -57,7 +59,7 @@ Inductive cstate :=
 Inductive hbstate :=
 | HNone
 | HSleep (p : pid) (created : Z) (due : Z)
-| HTrunc (p : pid) (created : Z) (target : ino) (fcreated : option Z)   (* truncated [target], about to write *)
+| HTrunc (p : pid) (created : Z) (target : ino) (fcreated : option Z) (since : Z)   (* truncated [target] at [since], about to write *)
 | HDone.
 
 Record state := State {
@@ -111,7 +113,7 @@ Definition is_stale (t : Z) (created updated : option Z) : bool :=
 Definition hb_allows (t : Z) (h : hbstate) : bool :=
   match h with
   | HSleep _ _ due => t <=? due + delta c
-  | HTrunc _ _ _ _ => false          (* truncate -> write takes no model time *)
+  | HTrunc _ _ _ _ since => t <=? since + eps c
   | _ => true
   end.
 Definition can_tick (s : state) (d : Z) : bool :=
@@ -126,7 +128,7 @@ Definition kill_cs (p : pid) (pr : tid -> pid) (f : tid -> cstate) : tid -> csta
            | x => if Nat.eqb (pr t) p then CDead else x
            end.
 Definition hb_proc (h : hbstate) : option pid :=
-  match h with HSleep p _ _ | HTrunc p _ _ _ => Some p | _ => None end.
+  match h with HSleep p _ _ | HTrunc p _ _ _ _ => Some p | _ => None end.
 Definition kill_hb (p : pid) (f : ino -> hbstate) : ino -> hbstate :=
   fun i => match hb_proc (f i) with
            | Some q => if Nat.eqb q p then HDone else f i
@@ -222,7 +224,7 @@ Definition step (s : state) (l : label) : option state :=
                       Some (State (now s) (file s) (content s) (nexti s) (cs s) (cproc s) (tids s) (upd (hb s) i HDone) (lastcreate s))
                     else
                       Some (State (now s) (file s) (upd (content s) j FEmpty) (nexti s) (cs s) (cproc s) (tids s)
-                                  (upd (hb s) i (HTrunc p cr j fcr)) (lastcreate s))
+                                  (upd (hb s) i (HTrunc p cr j fcr (now s))) (lastcreate s))
                 | _ => (* json.Unmarshal fails: terminate *)
                     Some (State (now s) (file s) (content s) (nexti s) (cs s) (cproc s) (tids s) (upd (hb s) i HDone) (lastcreate s))
                 end
@@ -232,7 +234,7 @@ Definition step (s : state) (l : label) : option state :=
       end
   | LHbWrite i =>
       match hb s i with
-      | HTrunc p cr j fcr =>
+      | HTrunc p cr j fcr _ =>
           Some (State (now s) (file s) (upd (content s) j (FMeta fcr (Some (now s)))) (nexti s) (cs s) (cproc s) (tids s)
                       (upd (hb s) i (HSleep p cr (now s + interval c))) (lastcreate s))
       | _ => None
@@ -286,7 +288,11 @@ Definition min_due (a b : option (Z * label)) : option (Z * label) :=
   | _, None => a
   end.
 Definition next_due (s : state) : option (Z * label) :=
-  let hbs := map (fun i => match hb s i with HSleep _ _ due => Some (due, LHbWake i) | _ => None end) (seq 0 (nexti s)) in
+  let hbs := map (fun i => match hb s i with
+                           | HSleep _ _ due => Some (due, LHbWake i)
+                           | HTrunc _ _ _ _ since => Some (since + eps c, LHbWrite i)   (* the gap lasts eps *)
+                           | _ => None
+                           end) (seq 0 (nexti s)) in
   let ths := map (fun t => match cs s t with CSleep _ u => Some (u, LWake t) | _ => None end) (rev (tids s)) in
   fold_left min_due (hbs ++ ths) None.
 
@@ -333,8 +339,11 @@ Definition sim_step (m : sim) : option sim :=
                    (rev (tids s)) with
   | Some l => take m l
   | None =>
-  (* 2. zero-time steps: heartbeat writes, then threads *)
-  match first_some (fun i => match hb s i with HTrunc _ _ _ _ => Some (LHbWrite i) | _ => None end) (seq 0 (nexti s)) with
+  (* 2. steps that are due now: heartbeat writes whose gap is over, then threads *)
+  match first_some (fun i => match hb s i with
+                             | HTrunc _ _ _ _ since => if since + eps c <=? now s then Some (LHbWrite i) else None
+                             | _ => None
+                             end) (seq 0 (nexti s)) with
   | Some l => take m l
   | None =>
   match first_some (transient_label s) (rev (tids s)) with
